@@ -9,6 +9,8 @@ for f in ("/verif/out/ben2_results.json", "/verif/out/ben2b_results.json", "/ver
     if not os.path.exists(f):
         continue
     for name, r in json.load(open(f)).items():
+        if name[0] not in "GH":
+            continue
         src = r["dir"]
         d = f"/verif/benign/{name}"
         os.makedirs(d, exist_ok=True)
